@@ -30,19 +30,19 @@ add('C02', ['C02', 'C02S', 'C02N', 'C02L'], 'exploration',
     "Stage 1: same cluster executions with clients issuing colliding puts and gets; invoke/return stamped by scheduler step; per-key linearizability decided by porcupine (unknown outcomes may take effect once or never); stale reads only from deposed leaders; no read may return a value that is absent from the final committed log. Stage 2: fine-grained schedules of writers colliding on one key on a real RF=3 leader: the state reads are served from equals the fold of the committed log, responses match their requests.",
     "DESIGN.md §3 C02", CLUSTER_NOTE, T_SCHED + " + porcupine linearizability checking of every explored history", 'sched')
 add('C03', ['C03', 'C03S', 'C03F', 'C03L'], 'exploration',
-    "Stage 1: same cluster executions; at the instant a follower hands Ack(o) to a term-T stream its synced log must equal the term-T leader's log at every offset <= o (shadow logs recorded at the WAL seam); committed prefixes of all replicas are compared with the final leader at the end. Schedule stage on the leader (h/c03s): one election of a real leader controller against two checking followers from a preloaded two-term log (with and without an uncommitted tail; one follower empty and restored from a snapshot, or holding a longer tail of the older term), every schedule of BecomeLeader, follower cursors, snapshot sender and ack receivers up to the deviation bound; the followers check every truncation, append and snapshot and must end with exactly the leader's log. Stage 2: explicit-state search of the follower as a protocol state machine (every sequence of 13 protocol events - new-term requests, appends of current / stale terms, truncation and its re-delivery, complete / interrupted / stale-term snapshot transfers, restart, crash - up to the depth, on a real follower controller): acknowledged entries stay stored with their leader's entry, the database is the fold of what the node holds.",
+    "Stage 1: same cluster executions; at the instant a follower hands Ack(o) to a term-T stream its synced log must equal the term-T leader's log at every offset <= o (shadow logs recorded at the WAL seam); committed prefixes of all replicas are compared with the final leader at the end. Schedule stage on the leader (h/c03s): one election of a real leader controller against two checking followers from a preloaded two-term log (with and without an uncommitted tail; one follower empty and restored from a snapshot, or holding a longer tail of the older term), every schedule of BecomeLeader, follower cursors, snapshot sender and ack receivers up to the deviation bound; the followers check every truncation, append and snapshot and must end with exactly the leader's log. Stage 2: explicit-state search of the follower as a protocol state machine (every sequence of 14 protocol events - new-term requests, appends of current / stale terms, truncation and its re-delivery, complete / interrupted / stale-term snapshot transfers, restart, crash - up to the depth, on a real follower controller): acknowledged entries stay stored with their leader's entry, the database is the fold of what the node holds.",
     "DESIGN.md §3 C03, §7", CLUSTER_NOTE, T_SCHED + " + " + T_FSM, 'sched+fsm')
 add('C04', ['C04', 'C04S', 'C04F', 'C04N'], 'exploration',
-    "Stage 1: stateless exploration of NewTerm(T+1) racing with in-flight client writes on a real leader controller (RF=3, acknowledging scripted followers) and with in-flight appends and pending WAL syncs on a real follower controller: every schedule with <=2 (thorough <=3) non-default scheduling choices at every lock/atomic/channel point; reported head == end of the node's log at quiescence, no ack / acknowledged write beyond the reported head, old-term writes and appends refused after the answer. Schedule stage on the follower alone (h/c04s): one in-flight request of the deposed leader (append, truncation, start of a snapshot transfer) racing with NewTerm on a follower holding three acknowledged entries; whichever is served first, the log must end where the NewTerm answer said. Stage 2: explicit-state search of the follower as a protocol state machine (13 protocol events, see C03): no acknowledgement, append, truncation or snapshot of an older term changes a fenced node; the reported head is the end of its log.",
+    "Stage 1: stateless exploration of NewTerm(T+1) racing with in-flight client writes on a real leader controller (RF=3, acknowledging scripted followers) and with in-flight appends and pending WAL syncs on a real follower controller: every schedule with <=2 (thorough <=3) non-default scheduling choices at every lock/atomic/channel point; reported head == end of the node's log at quiescence, no ack / acknowledged write beyond the reported head, old-term writes and appends refused after the answer. Schedule stage on the follower alone (h/c04s): one in-flight request of the deposed leader (append, truncation, start of a snapshot transfer) racing with NewTerm on a follower holding three acknowledged entries; whichever is served first, the log must end where the NewTerm answer said. Stage 2: explicit-state search of the follower as a protocol state machine (14 protocol events, see C03): no acknowledgement, append, truncation or snapshot of an older term changes a fenced node; the reported head is the end of its log.",
     "DESIGN.md §3 C04", SCHED_NOTE + " Peers are scripted; the director path is exercised by the cluster harness of C05.", T_SCHED + " + " + T_FSM, 'sched+fsm')
 add('C05', ['C05', 'C05S', 'C05F', 'C05N'], 'exploration',
-    "Cluster harness with election-safety monitors evaluated at every scheduling point and at every coordination RPC (scenarios as C01 plus lost BecomeLeader answer and coordinator crash right after BecomeLeader): at most one LEADER per term and at most one node told to lead a term; node terms never decrease (also across crash+restart on the crash-simulating FS); every NewTerm/BecomeLeader carries a term that is durable in the metadata store and not below any term sent before (also across coordinator crash+restart); BecomeLeader only after a fenced majority, to an ensemble member whose head is maximal among the fenced ensemble members, with followers from the stored ensemble only. Schedule stage on the coordinator (h/c05s): the real coordinator.ConfigChanged (compare-and-set of the whole status document) racing with the status writes of one or two elections of another shard, every schedule up to the deviation bound: the status a restarted coordinator loads holds the term that was stored before NewTerm was sent. Stage 2 (node side): explicit-state search of the follower as a protocol state machine (13 protocol events, see C03): the term a node has answered for never decreases across restarts, crashes and snapshot transfers.",
+    "Cluster harness with election-safety monitors evaluated at every scheduling point and at every coordination RPC (scenarios as C01 plus lost BecomeLeader answer and coordinator crash right after BecomeLeader): at most one LEADER per term and at most one node told to lead a term; node terms never decrease (also across crash+restart on the crash-simulating FS); every NewTerm/BecomeLeader carries a term that is durable in the metadata store and not below any term sent before (also across coordinator crash+restart); BecomeLeader only after a fenced majority, to an ensemble member whose head is maximal among the fenced ensemble members, with followers from the stored ensemble only. Schedule stage on the coordinator (h/c05s): the real coordinator.ConfigChanged (compare-and-set of the whole status document) racing with the status writes of one or two elections of another shard, every schedule up to the deviation bound: the status a restarted coordinator loads holds the term that was stored before NewTerm was sent. Stage 2 (node side): explicit-state search of the follower as a protocol state machine (14 protocol events, see C03): the term a node has answered for never decreases across restarts, crashes and snapshot transfers.",
     "DESIGN.md §3 C05", CLUSTER_NOTE, T_SCHED + " over real servers and coordinator with crash/fault injection + " + T_FSM, 'sched+fsm')
 add('C06', ['C06', 'C06S'], 'model_checking',
     "Stage 1: differential explicit-state search: every history of write requests (puts, conditional puts, deletes, range deletes below/above the threshold, session records, sequence puts, secondary indexes) up to the depth bound is applied through six routes (live, replay on a second DB, close+reopen at every split, crash on a strict in-memory FS + replay from the stored commit offset, snapshot with several chunk sizes + replay, real leader) and the full ordered dumps must be identical. Stage 2: schedule exploration of the real cluster (client cancellation, failed BecomeLeader, rolling isolation, crash+restart, spurious failover): at the end every replica's database equals the fold of the final leader's log up to the commit offset stored in that database.",
     "DESIGN.md §3 C06, §10", "Real kv.DB / Pebble; depth and alphabet bounded; differential oracle (no hand-written expected values). " + CLUSTER_NOTE, T_SEQX + ", differential between application routes + " + T_SCHED, 'seqx+sched')
 add('C07', ['C07', 'C07S', 'C07F', 'C07N'], 'fault_enumeration',
-    "For histories of writes interleaved with flush-inducing events, every filesystem-operation index of the run is a crash point on Pebble's strict in-memory FS: the reopened DB must equal the fold of entries 0..c for its stored commit offset c, terms acknowledged before the crash survive, replay from c+1 reaches the uncrashed state, and commit offsets are written exactly once in order. Stage 2: schedule exploration of the real leader write pipeline (2-3 writers, WAL sync thread, cursors, ack receivers): every batch commit of the commit-offset record seen at the kv.Factory seam is previous+1 and every committed entry is applied. Protocol-event stage on the follower (h/c07f, lib/ffsm): every sequence of 13 follower protocol events up to the depth from a preloaded state (two entries held, one applied): after every event the follower's database is the fold of the entries it holds up to the commit offset stored in it. The schedule stage also runs a real follower on a real directory whose apply round is in progress (plain, and with a slow read of one entry) when the next term starts and the new leader restores the node from a snapshot: the stored commit offset is not below what the node answered to the transfer and the database is the fold of the leader's log up to it.",
+    "For histories of writes interleaved with flush-inducing events, every filesystem-operation index of the run is a crash point on Pebble's strict in-memory FS: the reopened DB must equal the fold of entries 0..c for its stored commit offset c, terms acknowledged before the crash survive, replay from c+1 reaches the uncrashed state, and commit offsets are written exactly once in order. Stage 2: schedule exploration of the real leader write pipeline (2-3 writers, WAL sync thread, cursors, ack receivers): every batch commit of the commit-offset record seen at the kv.Factory seam is previous+1 and every committed entry is applied. Protocol-event stage on the follower (h/c07f, lib/ffsm): every sequence of 14 follower protocol events up to the depth from a preloaded state (two entries held, one applied): after every event the follower's database is the fold of the entries it holds up to the commit offset stored in it. The schedule stage also runs a real follower on a real directory whose apply round is in progress (plain, and with a slow read of one entry) when the next term starts and the new leader restores the node from a snapshot: the stored commit offset is not below what the node answered to the transfer and the database is the fold of the leader's log up to it.",
     "DESIGN.md §2.4 E3b, §3 C07", "Pebble's StrictMem semantics are the crash model; WAL side: everything appended survives or only synced entries survive.", "exhaustive crash-point enumeration over the real storage engine on a crash-simulating filesystem + " + T_SCHED + " + " + T_FSM, 'e3+sched+fsm')
 add('C08', ['C08', 'C08L'], 'exploration',
     "Stateless exploration of the real leader controller (real WAL, real Pebble DB, real quorum tracker and follower cursors) with scripted followers: every schedule with <=2 (thorough <=3) non-default scheduling choices of 2-3 concurrent writers, the WAL sync thread, cursors and ack receivers; oracle on results, WAL contiguity, apply order, response identity, and commit/head offsets at every scheduling point. Leader-conformance stage (h/c08l, lib/lfsm): a real leader controller against checking followers, every sequence of leader protocol events (elections with followers that are level, behind, empty, diverged or down; writes with and without a quorum; restart; crash) up to the depth; after every event the commit offset is stored by the leader and at least one follower, no write completes and no leader is installed without a quorum.",
